@@ -118,7 +118,7 @@ type World struct {
 	KeyLog     *KeyLog
 	Start      time.Time
 	clients    int
-	closers    []func()
+	endpoints  []*simnet.SimConn
 }
 
 // NewWorld must be called inside a bubble.
@@ -155,6 +155,7 @@ func (w *World) Listen(tlsConf *tls.Config, conf *quic.Config) (*quic.Listener, 
 func (w *World) ListenWith(tlsConf *tls.Config, conf *quic.Config, setup func(*quic.Transport)) (*quic.Listener, error) {
 	if w.ServerConn == nil {
 		w.ServerConn = simnet.NewBlockingSimConn(w.ServerAddr, w.Router)
+		w.endpoints = append(w.endpoints, w.ServerConn)
 	}
 	if w.ServerTr == nil {
 		w.ServerTr = &quic.Transport{Conn: w.ServerConn}
@@ -174,7 +175,18 @@ func (w *World) ListenWith(tlsConf *tls.Config, conf *quic.Config, setup func(*q
 func (w *World) NewClientEndpoint() *simnet.SimConn {
 	w.clients++
 	addr := &net.UDPAddr{IP: net.IPv4(10, 0, 1, byte(w.clients)), Port: 40000 + w.clients}
-	return simnet.NewBlockingSimConn(addr, w.Router)
+	ep := simnet.NewBlockingSimConn(addr, w.Router)
+	w.endpoints = append(w.endpoints, ep)
+	return ep
+}
+
+// CloseEndpoints closes every simulated socket. A Transport does not close a socket it
+// was handed, and the sockets block the router once nobody reads them, so every harness
+// calls this last, before leaving the bubble.
+func (w *World) CloseEndpoints() {
+	for _, ep := range w.endpoints {
+		ep.Close()
+	}
 }
 
 // Dialer abstracts over the client kinds.
